@@ -2,6 +2,7 @@
 fail-closed reader (balance by construction + explicit token-balance run) and the certified checker
 chk_C12 (duplicates per scope, declared-before-use against package / floo_pkg / macro-defined names,
 sized literals, field values) on text facts extracted from the REAL files."""
+import json
 import random
 import re
 from harness import common, families, netprops
@@ -47,6 +48,23 @@ def sweeps(tier, seed):
     for sd in "WESN":
         for (m, n) in ((2, 2), (3, 1)):
             out.append(families.mesh(rng, m, n, "XY", False, sides=(sd,), side_role="m", cluster_role="ms"))
+    # free text: the `description` fields (network, protocol, endpoint, connection) may hold anything, several lines,
+    # brackets, comment markers; whatever of it reaches the generated files must stay inside a comment
+    prose = "first line of the description\n1) a list item (with) [brackets] {and braces}\nend of it */ // `define X 1\nmodule oops;"
+    for algo in ("XY", "ID", "SRC"):
+        for nw in (False, True):
+            d, t = families.mesh(rng, 2, 2, algo, nw, sides=("W",))
+            if d is None:
+                continue
+            d = json.loads(json.dumps(d))
+            d["description"] = prose
+            for p in d["protocols"]:
+                p["description"] = prose
+            for e in d["endpoints"]:
+                e["description"] = prose
+            for c in d["connections"]:
+                c["description"] = prose
+            out.append((d, dict(t, topo="free-text")))
     out += families.name_collision_suite(tier, seed)
     out += families.address_suite(tier, seed)
     # the package branch without an address table (use_id_table: false; documented for XY)
